@@ -96,12 +96,12 @@ class CumSumExpTransform(Transform):
 
         # The Jacobian is triangular so we compute the determinant using the diagonal
         if x.dim() == 1:
-            jac = jacobian(f, x)
+            jac = jacobian(f, x, create_graph=True)
             return torch.diagonal(jac, 0).log().sum()
         else:
             return torch.stack(
                 [
-                    torch.diagonal(jacobian(f, x[i])).log().sum()
+                    torch.diagonal(jacobian(f, x[i], create_graph=True)).log().sum()
                     for i in range(x.shape[0])
                 ]
             )
